@@ -43,6 +43,7 @@ type NetflowV9 struct {
 	stop    bool
 	stats   NetflowV9Stats
 	pool    chan chan struct{}
+	done    chan struct{} // closed when the receive loop has ended
 }
 
 // NetflowV9UDPMsg represents netflow v9 UDP data
@@ -81,6 +82,7 @@ func NewNetflowV9() *NetflowV9 {
 		port:    opts.NetflowV9Port,
 		addr:    opts.NetflowV9Addr,
 		workers: opts.NetflowV9Workers,
+		done:    make(chan struct{}),
 	}
 }
 
@@ -151,6 +153,7 @@ func (i *NetflowV9) run() {
 		netflowV9UDPCh <- NetflowV9UDPMsg{raddr, b[:n]}
 	}
 
+	close(i.done)
 }
 
 func (i *NetflowV9) shutdown() {
@@ -162,7 +165,9 @@ func (i *NetflowV9) shutdown() {
 	// stop reading from UDP listener
 	i.stop = true
 	logger.Println("stopping netflow v9 service gracefully ...")
-	time.Sleep(1 * time.Second)
+	// the receive loop sees the flag within its one second read deadline, but it may
+	// also be waiting for room in a full queue: the queue is closed only after it has ended
+	<-i.done
 
 	// dump the templates to storage
 	if err := mCacheNF9.Dump(opts.NetflowV9TplCacheFile); err != nil {
